@@ -24,7 +24,16 @@ out="$(cd /verif && VERIF_REPO="$WT/v8" ./check "$ID" "$TIER" 2>&1)"; rc=$?
 sig="$(echo "$out" | grep -m1 'sig=' | sed 's/^ *//')"
 case $rc in 1) verdict=caught;; 0) verdict=missed;; *) verdict=inconclusive;; esac
 echo "check $ID $TIER: exit=$rc $verdict $sig"
-D="/verif/seeded/$ID-$SLUG"; mkdir -p "$D"; cp "$OUT/patch.diff" "$D/"; for d in $demos; do cp "$OUT/$d" "$D/"; done; [ -f "$OUT/README.md" ] && cp "$OUT/README.md" "$D/README.md"
+D="/verif/seeded/$ID-$SLUG"; mkdir -p "$D"
+rp="$(echo "$out" | grep -m1 '^VIOLATION' | sed 's/.*replay=//')"
+if [ -n "$rp" ] && [ -f "$rp" ]; then
+  case "$rp" in
+    /verif/regress/*) ;;   # reported from a saved regression case: already kept
+    *.json) cp "$rp" "$D/replay.json"; mkdir -p "/verif/regress/$ID"; [ -f "/verif/regress/$ID/seeded-$SLUG.json" ] || cp "$rp" "/verif/regress/$ID/seeded-$SLUG.json";;
+    *) cp "$rp" "$D/replay.txt";;
+  esac
+fi
+ cp "$OUT/patch.diff" "$D/"; for d in $demos; do cp "$OUT/$d" "$D/"; done; [ -f "$OUT/README.md" ] && cp "$OUT/README.md" "$D/README.md"
 python3 - "$D" "$ID" "$SLUG" "$DEMODIR" "$TIER" "$rc" "$verdict" "$sig" "$(git -C /repo log --format=%h -1)" <<'PY'
 import json,sys,os
 D,ID,SLUG,DEMODIR,TIER,rc,verdict,sig,head=sys.argv[1:10]
